@@ -26,6 +26,10 @@ Record gen_ok (g : lis_gen) (strict : bool) : Prop := {
   ok_range_lo : g_range_lo g = 1;
   ok_i_incr : forall i, g_i_incr g i = i + 1;
   ok_best_idx : forall lt, g_best_idx g lt = lt - 1;
+  ok_fast_arg0 : g_fast_arg0 g = 0;
+  ok_fast_arg1 : g_fast_arg1 g = 1;
+  ok_clo_arg0 : g_clo_arg0 g = 0;
+  ok_clo_arg1 : g_clo_arg1 g = 1;
   ok_fast : forall c, g_fast_cond g c = if strict then c >? 0 else c >=? 0;
   (* the search may run over tails minus its final element (as the code does) or over all of
      tails: the fast path has already excluded the position beyond the end *)
@@ -253,8 +257,11 @@ Section LisProofs.
     Lemma znth_vs : forall j, (j < N)%nat -> znth vs (Z.of_nat j) = Some (V j).
     Proof. intros. rewrite znth_nat. now apply nth_error_nth'. Qed.
 
-    Lemma key_cmp_vs : forall j t, (j < N)%nat -> key_cmp T cmp vs (Z.of_nat j) t = Some (cmp (V j) t).
-    Proof. intros. unfold key_cmp. now rewrite znth_vs. Qed.
+    Lemma key_cmp_vs : forall j t, (j < N)%nat -> key_cmp T cmp g vs (Z.of_nat j) t = Some (cmp (V j) t).
+    Proof.
+      intros. unfold key_cmp. rewrite znth_vs by assumption.
+      rewrite (ok_clo_arg0 _ _ Hg), (ok_clo_arg1 _ _ Hg). reflexivity.
+    Qed.
 
     (* ---- the two binary searches: first position whose value may not precede the target ---- *)
     Section Search.
@@ -279,7 +286,7 @@ Section LisProofs.
         (lo <= hi)%nat -> (hi <= length sl)%nat -> (fuel > hi - lo)%nat ->
         (forall m, (m < lo)%nat -> q m = true) ->
         (forall m, (hi <= m)%nat -> (m < length sl)%nat -> q m = false) ->
-        exists r, bisect_loop T cmp fuel vs (map Z.of_nat sl) target (Z.of_nat lo) (Z.of_nat hi)
+        exists r, bisect_loop T cmp g fuel vs (map Z.of_nat sl) target (Z.of_nat lo) (Z.of_nat hi)
                   = Some (Z.of_nat r) /\ search_post lo hi r.
       Proof.
         intros Hs. induction fuel as [|fuel IH]; intros lo hi Hlh Hhi Hf Hlo Hhigh; [lia|].
@@ -313,7 +320,7 @@ Section LisProofs.
         (lo <= hi)%nat -> (hi <= length sl)%nat -> (fuel > hi - lo)%nat ->
         (forall m, (m < lo)%nat -> q m = true) ->
         (forall m, (hi <= m)%nat -> (m < length sl)%nat -> q m = false) ->
-        exists r, std_binsearch_loop T cmp fuel vs (map Z.of_nat sl) target (Z.of_nat lo) (Z.of_nat hi)
+        exists r, std_binsearch_loop T cmp g fuel vs (map Z.of_nat sl) target (Z.of_nat lo) (Z.of_nat hi)
                   = Some (Z.of_nat r) /\ search_post lo hi r.
       Proof.
         intros Hs. induction fuel as [|fuel IH]; intros lo hi Hlh Hhi Hf Hlo Hhigh; [lia|].
@@ -352,7 +359,7 @@ Section LisProofs.
         exists r, std vs (map Z.of_nat sl) target = Some (Z.of_nat r)
                   /\ search_post sl target 0 (length sl) r.
 
-    Lemma std_binsearch_ok : strict = true -> std_ok (std_binsearch T cmp).
+    Lemma std_binsearch_ok : strict = true -> std_ok (std_binsearch T cmp g).
     Proof.
       intros Hs sl target Hlt Hmono. unfold std_binsearch, zlen. rewrite map_length.
       change 0 with (Z.of_nat 0).
@@ -553,7 +560,10 @@ Section LisProofs.
       rewrite znth_map_of_nat by lia.
       set (best := nth (L - 1) tl 0%nat).
       assert (Hbest : (best < n)%nat) by (apply Ilt; lia).
-      rewrite (znth_vs n Hn), (znth_vs best ltac:(lia)), (fast_is_fol g Hg).
+      rewrite (znth_vs n Hn), (znth_vs best ltac:(lia)).
+      rewrite (ok_fast_arg0 _ _ Hg), (ok_fast_arg1 _ _ Hg).
+      change (cmp_sel T cmp 0 1 (V n) (V best)) with (Some (cmp (V n) (V best))). cbv beta iota.
+      rewrite (fast_is_fol g Hg).
       destruct (fol (V best) (V n)) eqn:Ef.
       - (* fast path: append *)
         rewrite zupd_nat. destruct (upd_nat_some prev n (Z.of_nat best) ltac:(lia)) as [prev' E].
@@ -721,6 +731,7 @@ Section LisProofs.
       destruct (znth (map Z.of_nat tl) _) as [best|]; [|reflexivity].
       rewrite (znth_vs vs d n Hn).
       destruct (znth vs best) as [vb|]; [|reflexivity].
+      destruct (cmp_sel T cmp _ _ _ _) as [c0|]; [|reflexivity].
       destruct (g_fast_cond g _); [reflexivity|].
       destruct (zslice_hi _ _) as [sub|] eqn:Esub; [|reflexivity].
       assert (Hsub : exists K, (K <= length tl)%nat /\ sub = map Z.of_nat (firstn K tl)).
@@ -820,20 +831,23 @@ Section Contract.
   Variable cmp : T -> T -> Z.
   Variable vs : list T.
   Variable d : T.
+  Variable g : lis_gen.
+  Variable strict0 : bool.
+  Hypothesis Hg : gen_ok g strict0.
 
   Lemma all_some_keys : forall (tg : T) (sl : list nat),
     (forall m, (m < length sl)%nat -> (nth m sl 0 < length vs)%nat) ->
-    all_some (map (fun idx => key_cmp T cmp vs idx tg) (map Z.of_nat sl))
+    all_some (map (fun idx => key_cmp T cmp g vs idx tg) (map Z.of_nat sl))
     = Some (map (fun x => cmp (nth x vs d) tg) sl).
   Proof.
     intros tg sl Hlt. induction sl as [|x sl IH]; [reflexivity|].
-    cbn [map all_some]. rewrite (key_cmp_vs T cmp vs d x tg) by (apply (Hlt 0%nat); cbn; lia).
+    cbn [map all_some]. rewrite (key_cmp_vs T cmp strict0 g Hg vs d x tg) by (apply (Hlt 0%nat); cbn; lia).
     rewrite IH; [reflexivity|]. intros m Hm. apply (Hlt (S m)). cbn; lia.
   Qed.
 
   (* every implementation that meets the contract is good enough for the LIS proof *)
   Lemma contract_std_ok : forall impl, bsf_meets_contract impl ->
-    std_ok T cmp true vs d (std_of T cmp impl).
+    std_ok T cmp true vs d (std_of T cmp g impl).
   Proof.
     intros impl Himpl sl tg Hlt Hmono. unfold std_of.
     set (ks := map (fun x => cmp (nth x vs d) tg) sl).
@@ -875,7 +889,7 @@ End Contract.
    contract as formalised in LisSpec (so the contract is satisfiable, and is read the way the
    actual standard library behaves). *)
 Definition go123_on_keys (ks : list Z) : option Z :=
-  std_binsearch Z (fun k _ => k) ks (map Z.of_nat (seq 0 (length ks))) 0.
+  std_binsearch Z (fun k _ => k) lis_gen_ ks (map Z.of_nat (seq 0 (length ks))) 0.
 
 Lemma map_nth_seq_id : forall {A} (l : list A) d, map (fun x => nth x l d) (seq 0 (length l)) = l.
 Proof.
@@ -904,11 +918,12 @@ Proof.
     destruct (Z_lt_ge_dec (nth a ks 0) 0) as [|Hge]; [assumption|]. exfalso.
     assert (b < a)%nat; [|lia].
     apply (Hsorted b a (nth b ks 0) (nth a ks 0)); try lia; apply nth_error_nth'; lia. }
-  destruct (std_binsearch_ok Z cmpk true ks 0 eq_refl sl 0 Hlt Hmono) as (r & Er & Pr).
-  destruct (contract_std_ok Z cmpk ks 0 _ linear_scan_meets_contract sl 0 Hlt Hmono) as (r' & Er' & Pr').
+  destruct (std_binsearch_ok Z cmpk true lis_gen_ lis_gen_ok ks 0 eq_refl sl 0 Hlt Hmono) as (r & Er & Pr).
+  destruct (contract_std_ok Z cmpk ks 0 lis_gen_ true lis_gen_ok _ linear_scan_meets_contract sl 0 Hlt Hmono)
+    as (r' & Er' & Pr').
   rewrite Er. f_equal. f_equal.
   rewrite (search_post_unique Z cmpk true ks 0 sl 0 r r' Pr Pr').
-  unfold std_of in Er'. rewrite (all_some_keys Z cmpk ks 0 0 sl Hlt) in Er'.
+  unfold std_of in Er'. rewrite (all_some_keys Z cmpk ks 0 lis_gen_ true lis_gen_ok 0 sl Hlt) in Er'.
   unfold cmpk, sl in Er'. rewrite map_nth_seq_id in Er'. inversion Er' as [E].
   apply Nat2Z.inj in E. congruence.
 Qed.
@@ -953,8 +968,8 @@ Section Public.
     forall t, Subseq t vs -> ordered_b T cmp true t = true -> (length t <= length s)%nat.
   Proof.
     intros impl Himpl.
-    apply (run_func_spec T cmp cmp_flip cmp_trans true lis_gen_ (std_of T cmp impl) lis_gen_ok).
-    intros _ vs d. apply contract_std_ok. exact Himpl.
+    apply (run_func_spec T cmp cmp_flip cmp_trans true lis_gen_ (std_of T cmp lis_gen_ impl) lis_gen_ok).
+    intros _ vs d. apply (contract_std_ok T cmp vs d lis_gen_ true lis_gen_ok). exact Himpl.
   Qed.
 
   (* ... and every such implementation gives the very same result as the hand copy of the go1.23
@@ -964,8 +979,8 @@ Section Public.
   Proof.
     intros impl Himpl.
     apply (run_func_irrel T cmp cmp_flip cmp_trans true lis_gen_ _ _ lis_gen_ok).
-    - intros _ vs d. apply contract_std_ok. exact Himpl.
-    - intros _ vs d. apply std_binsearch_ok. reflexivity.
+    - intros _ vs d. apply (contract_std_ok T cmp vs d lis_gen_ true lis_gen_ok). exact Himpl.
+    - intros _ vs d. apply std_binsearch_ok; [exact lis_gen_ok | reflexivity].
   Qed.
 
   (* LISFunc over the hand copy of the go1.23 loop *)
@@ -973,7 +988,7 @@ Section Public.
     lis_func T cmp vs = Some s /\ Subseq s vs /\ ordered_b T cmp true s = true /\
     forall t, Subseq t vs -> ordered_b T cmp true t = true -> (length t <= length s)%nat.
   Proof.
-    apply (run_func_spec T cmp cmp_flip cmp_trans true lis_gen_ (std_binsearch T cmp) lis_gen_ok).
-    intros _ vs d. apply std_binsearch_ok. reflexivity.
+    apply (run_func_spec T cmp cmp_flip cmp_trans true lis_gen_ (std_binsearch T cmp lis_gen_) lis_gen_ok).
+    intros _ vs d. apply std_binsearch_ok; [exact lis_gen_ok | reflexivity].
   Qed.
 End Public.
